@@ -13,6 +13,9 @@ import random
 from . import apisurface
 
 
+FULL_PROBE_LIMIT = 12
+
+
 def includes_multi(tree, sel, order_seed, tu):
     """Include lines for the multi-header variant.  The order is seeded: a public header must
     compile no matter what was included before it (and in particular as the very first include)."""
@@ -51,8 +54,39 @@ COMMON_HEAD = r"""
 
 int other_tu_value();
 const char *other_tu_label();
+unsigned other_tu_checksum();
+const void *other_tu_label_address(unsigned i);
 
 namespace probe {
+
+// The same inline / template entities are odr-used from both translation units.
+template <typename U>
+unsigned checksum_one() {
+    using namespace au;
+    unsigned h = 2166136261u;
+    for (const char *p = unit_label<U>(); *p; ++p) h = (h ^ static_cast<unsigned char>(*p)) * 16777619u;
+    h += static_cast<unsigned>((make_quantity<U>(7) + make_quantity<U>(35)).in(U{}));
+    h += static_cast<unsigned>(sizeof(Quantity<U, std::int16_t>));
+    return h;
+}
+
+template <typename A, typename B>
+void common(std::true_type) {
+    using namespace au;
+    std::printf(" common=[%s] lt=%d eq=%d\n", unit_label(common_unit(A{}, B{})),
+                int(make_quantity<A>(1.0) < make_quantity<B>(1.0)), int(make_quantity<A>(0.0) == make_quantity<B>(0.0)));
+}
+template <typename A, typename B>
+void common(std::false_type) {
+    std::printf("\n");
+}
+template <typename A, typename B>
+void pair(const char *a, const char *b) {
+    using namespace au;
+    std::printf("pair %s %s prod=[%s] quot=[%s] samedim=%d", a, b, unit_label(A{} * B{}), unit_label(A{} / B{}),
+                int(has_same_dimension(A{}, B{})));
+    common<A, B>(std::integral_constant<bool, HasSameDimension<A, B>::value>{});
+}
 
 template <typename U>
 void unit(const char *name) {
@@ -94,18 +128,28 @@ def body_main(tree, sel, probe_cfg):
     if io:
         out.append("#include <sstream>\n")
     out.append(apisurface.definitions(probe_cfg, io))
+    out.append(checksum_fn("local_checksum", unit_type_list(tree, units)))
     out.append("int main() {")
     out.append("    using namespace au;")
     out.append('    std::printf("other %d %s same_label=%d\\n", other_tu_value(), other_tu_label(),')
     out.append("                int(other_tu_label() == unit_label<Seconds>()));")
     out.append('    std::printf("base %d %d\\n", (hours(2) + minutes(30)).in(seconds), int(minutes(1) == seconds(60)));')
-    seen = set()
-    for u in units:
-        for ty in tree.unit_types.get(u, []):
-            if ty in seen:
-                continue
-            seen.add(ty)
-            out.append('    probe::unit<au::%s>("%s");' % (ty, ty))
+    types = unit_type_list(tree, units)
+    # Every selected unit takes part in the cross-TU checksum below; the (expensive to compile)
+    # full per-unit probe is instantiated for all of them up to FULL_PROBE_LIMIT, beyond that for
+    # a seeded sample.
+    full = list(types)
+    if len(full) > FULL_PROBE_LIMIT:
+        full = sorted(random.Random("%s|full" % probe_cfg.get("include_order")).sample(full, FULL_PROBE_LIMIT), key=types.index)
+    for ty in full:
+        out.append('    probe::unit<au::%s>("%s");' % (ty, ty))
+    out.append('    std::printf("checksum local=%u other=%u\\n", local_checksum(), other_tu_checksum());')
+    for i in range(min(len(types), 6)):
+        out.append('    std::printf("label_address %d same=%d\\n", ' + str(i) + ", int(other_tu_label_address(%d) == static_cast<const void *>(au::unit_label<au::%s>())));" % (i, types[i]))
+    npairs = min(8, len(types) - 1) if len(types) > 1 else 0
+    for i in range(npairs):
+        a, b = types[i], types[i + 1]
+        out.append('    probe::pair<au::%s, au::%s>("%s", "%s");' % (a, b, a, b))
     seen = set()
     for c in consts:
         name = tree.constant_names.get(c.lower())
@@ -136,9 +180,42 @@ const char *other_tu_label() { return au::unit_label<au::Seconds>(); }
 """
 
 
+def unit_type_list(tree, units):
+    seen = set()
+    out = []
+    for u in units:
+        for ty in tree.unit_types.get(u, []):
+            if ty not in seen:
+                seen.add(ty)
+                out.append(ty)
+    return out
+
+
+def checksum_fn(name, types):
+    lines = ["unsigned %s() {" % name, "    unsigned h = 17u;"]
+    for ty in types:
+        lines.append("    h = h * 31u + probe::checksum_one<au::%s>();" % ty)
+    lines += ["    return h;", "}"]
+    return "\n".join(lines)
+
+
+def body_other(tree, sel):
+    units = tree.units if sel.get("units") == "ALL" else list(sel.get("units") or [])
+    types = unit_type_list(tree, units)
+    out = [COMMON_HEAD, BODY_OTHER, checksum_fn("other_tu_checksum", types)]
+    out.append("const void *other_tu_label_address(unsigned i) {")
+    out.append("    switch (i) {")
+    for i, ty in enumerate(types[:6]):
+        out.append("        case %d: return au::unit_label<au::%s>();" % (i, ty))
+    out.append("        default: return nullptr;")
+    out.append("    }")
+    out.append("}")
+    return "\n".join(out) + "\n"
+
+
 def sources(tree, sel, probe_cfg, variant):
     """{filename: text} for one variant ('single' or 'multi')."""
     seed = probe_cfg.get("include_order")
     main = "\n".join(preamble(tree, sel, variant, seed, "probe", 2)) + "\n" + body_main(tree, sel, probe_cfg)
-    other = "\n".join(preamble(tree, sel, variant, seed, "other", 1)) + "\n" + BODY_OTHER
+    other = "\n".join(preamble(tree, sel, variant, seed, "other", 1)) + "\n" + body_other(tree, sel)
     return {"probe.cc": main, "other.cc": other}
